@@ -166,13 +166,13 @@ def run(chk, replay=None):
     jobs = []
     for i in range(n):
         seed = chk.seed * 100000 + 7000 + i
-        jobs.append(lambda i=i, seed=seed: one_model(chk, binary, "m%d" % seed, emit.random_model(seed, fnptr=(i % 6 == 0), wrapped=(i % 3 == 1), layout=(i % 4 >= 2), plain=(i % 8 == 3)), CONFIGS[i % len(CONFIGS)], stats))
+        jobs.append(lambda i=i, seed=seed: one_model(chk, binary, "m%d" % seed, emit.random_model(seed, fnptr=(i % 6 == 0), wrapped=(i % 3 == 1), wrapped_ctx=("" if i % 6 == 1 else "Arc"), layout=(i % 4 >= 2), plain=(i % 8 == 3)), CONFIGS[i % len(CONFIGS)], stats))
     ncpp = 16 if q else 200
     for i in range(ncpp):
         seed = chk.seed * 100000 + 57000 + i
 
         def job(i=i, seed=seed):
-            m, em, user, funcs = bgrun.emit_cpp.random_cpp(seed, fnptr=(i % 6 == 0), wrapped=(i % 3 == 1), layout=(i % 4 >= 2), plain=(i % 8 == 3))
+            m, em, user, funcs = bgrun.emit_cpp.random_cpp(seed, fnptr=(i % 6 == 0), wrapped=(i % 3 == 1), wrapped_ctx=("" if i % 6 == 1 else "Arc"), layout=(i % 4 >= 2), plain=(i % 8 == 3))
             one_model_cpp(chk, binary, "c%d" % seed, em, user, funcs, CONFIGS[i % len(CONFIGS)], stats)
         jobs.append(job)
     rtrun.run_many(chk, jobs)
